@@ -86,10 +86,14 @@ def run(ctx):
             nt *= 10
         _driver(ctx, binary, "TestRandom", "rand_" + mode, {"VERIF_MODE": mode, "VERIF_N": nt, "VERIF_STEPS": steps}, traces)
     if not q:
-        # the same schedules with other interleavings inside the wake-up cascades
-        for procs in (1, 2):
-            _driver(ctx, binary, "TestRandom", "rand_direct_p%d" % procs,
-                    {"VERIF_MODE": "direct", "VERIF_N": 200, "VERIF_STEPS": 40, "GOMAXPROCS": procs}, traces)
+        # the same schedules with other interleavings inside the wake-up
+        # cascades and other log orders: one P, and two Ps shared with busy
+        # goroutines that force preemption at arbitrary points
+        _driver(ctx, binary, "TestRandom", "rand_direct_p1",
+                {"VERIF_MODE": "direct", "VERIF_N": 200, "VERIF_STEPS": 40, "GOMAXPROCS": 1}, traces)
+        for mode in ("direct", "creator", "chain"):
+            _driver(ctx, binary, "TestRandom", "rand_%s_hostile" % mode,
+                    {"VERIF_MODE": mode, "VERIF_N": 200, "VERIF_STEPS": 40, "GOMAXPROCS": 2, "VERIF_SPIN": 6}, traces)
     if not traces:
         raise vlib.Infra("drivers produced no events:\n" + "\n".join(ctx.driver_failures))
     allp = os.path.join(ctx.sub("all"), "trace.ndjson")
